@@ -553,6 +553,8 @@ class CPGen:
 
     def stmt_while(self, ind, depth, ctx):
         rng = self.rng
+        if len(self.vint) < 2:
+            return self.simple(ind, ctx)       # every V integer but one already is the counter of an enclosing DO WHILE
         self.features.add('do_while')
         cv = rng.choice(self.vint)
         out = [f'{ind}{cv} = mod(abs(k1), 3)',
